@@ -42,7 +42,7 @@ class Harness(Exception):
     """Harness failure: exit 2, never a verdict."""
 
 
-def run_driver(exe, mode, ncases, outdir, args=(), env_extra=None, workers=NCPU, first=0, chunk=None, timeout=None):
+def run_driver(exe, mode, ncases, outdir, args=(), env_extra=None, workers=NCPU, first=0, chunk=None, timeout=None, rerun_watchdogs=True):
     """Run cases [first, first+ncases) of a driver mode across `workers` processes."""
     os.makedirs(outdir, exist_ok=True)
     if chunk is None:
@@ -62,7 +62,51 @@ def run_driver(exe, mode, ncases, outdir, args=(), env_extra=None, workers=NCPU,
     for r, rc, out in res:
         if rc != 0:
             raise Harness("driver %s cases %s exited %d: %s" % (mode, r, rc, out[-2000:]))
+    if rerun_watchdogs:
+        _rerun_watchdogs(exe, mode, outdir, list(args), env, ranges)
     return ranges
+
+
+def _rerun_watchdogs(exe, mode, outdir, args, env, ranges, limit=6):
+    """A case that hit the wall-clock backstop is run once more, alone on the machine's idle cores and with 4x the time.
+    If it finishes, its verdict replaces the time-out (the first one was load).  If it times out again it is reported as a
+    hang of the call named by its last PRE line: a violation key like any other (routed through known-findings matching)."""
+    base = 40
+    if "--timeout" in args:
+        i = args.index("--timeout")
+        base = int(args[i + 1])
+        args = args[:i] + args[i + 2:]
+    done = 0
+    for r in ranges:
+        ip = os.path.join(outdir, "index_%d.tsv" % r[0])
+        if not os.path.exists(ip):
+            continue
+        lines = open(ip).read().splitlines()
+        changed = False
+        for li, line in enumerate(lines):
+            parts = line.split("\t")
+            if len(parts) < 2 or parts[1] not in ("watchdog", "skipped_after_watchdogs") or done >= limit:
+                continue
+            case = int(parts[0])
+            done += 1
+            for suf in ("log", "err"):
+                src = os.path.join(outdir, "case_%d.%s" % (case, suf))
+                if os.path.exists(src):
+                    os.replace(src, src + ".first_attempt")
+            cmd = [exe, mode, "--out", outdir, "--seed", str(seed()), "--from", str(case), "--to", str(case + 1), "--timeout", str(base * 4)] + args
+            p = subprocess.run(cmd, env=env, stdout=subprocess.PIPE, stderr=subprocess.STDOUT, text=True)
+            if p.returncode != 0:
+                raise Harness("driver %s re-run of case %d exited %d: %s" % (mode, case, p.returncode, p.stdout[-2000:]))
+            one = open(os.path.join(outdir, "index_%d.tsv" % case)).read().splitlines()[0].split("\t")
+            if case != r[0]:
+                os.unlink(os.path.join(outdir, "index_%d.tsv" % case))
+            if one[1] == "watchdog":
+                one[1] = "hang:%ds_alone_after_%ds" % (base * 4, base if parts[1] == "watchdog" else 0)
+            print("note: case %d of %s hit the %d s backstop; alone with %d s it ended with status %s" % (case, os.path.basename(outdir), base, base * 4, one[1]))
+            lines[li] = "\t".join(one)
+            changed = True
+        if changed:
+            open(ip, "w").write("\n".join(lines) + "\n")
 
 
 SIG_RE = re.compile(r"ERROR: AddressSanitizer: ([A-Za-z0-9_-]+(?: [a-z-]+)*?)(?: on | \(|:|$)")
@@ -192,6 +236,9 @@ def parse_out(outdir, prop_for_crash=None, want_tags=("RES", "FINAL", "BUDGET"))
             elif status in ("watchdog", "skipped_after_watchdogs"):
                 R.watchdog.append(case)
                 WATCHDOGS.append((os.path.basename(outdir), case))
+            elif status.startswith("hang:"):
+                # timed out twice, the second time alone with 4x the time: the call named by the last PRE line does not return
+                R.viol.append(dict(prop="*", key="hang/no_return|during=" + last_pre, detail="the case hit the wall-clock backstop twice (%s); last operation started: %s" % (status, last_pre), case=case, log=logp))
             elif status == "harness":
                 # a library call the workload makes unconditionally (valid use by construction) threw: on the unchanged tree this never
                 # happens, so it is reported as a violation of the running property rather than hidden as a harness problem
